@@ -22,6 +22,15 @@ INFO = {
  'f1': ('C15', 'call_matcher::report_mismatch(): only the first WITH clause examined', 'no-match report for an expectation whose first WITH holds and a later one fails'),
  'f2': ('C15', 'free report_mismatch(): saturated listing stops after the first match', 'two saturated expectations that both match the rejected call'),
  'f3': ('C17', 'mock_func(): trace_params()/run_actions() hoisted out of the try block', 'live tracer, accepted call whose SIDE_EFFECT throws'),
+ 'g1': ('C10', 're(): string_helper for string-like classes delegates to the char const* constructor (strlen) and truncates at an embedded NUL', 'std::string / string_view argument with an embedded NUL and the regex matching only beyond it (or anchored with $)'),
+ 'g2': ('C11', 'range_includes(e...): remove_if/erase drops every remaining matcher a member satisfies', 'range_includes with two listed elements that one range member satisfies and no second member does'),
+ 'g3': ('C11', 'range_ends_with(e...): `size < num_values` -> `size <= num_values`', 'range exactly as long as the list of elements and equal to it'),
+ 'h1': ('C18', 'stream_sentry constructor no longer resets the fill character to blank', 'destination stream carrying a non-blank fill and a leaf printer that sets a width (e.g. hexdump, or a user operator<< using setw)'),
+ 'h2': ('C18', 'hexdump() walks the object as plain (signed) char instead of uint8_t', 'non-printable object with a byte >= 0x80 on a target where char is signed'),
+ 'h3': ('C19', 'call_limit_injector<Parent,0> no longer sets call_limit_set', '.TIMES(0) followed by a second TIMES / RT_TIMES (must be rejected at compile time)'),
+ 'i1': ('C15', 'free report_mismatch(): the signature of a matching saturated expectation printed only under the heading (first one only)', 'two saturated expectations that both match the rejected call'),
+ 'i2': ('C06', 'sequence_type::is_completed(): looks at the first registered expectation only', 'sequence whose head is satisfied while a later registered expectation is below its lower bound'),
+ 'i3': ('C14', 'list_elem move assignment: `next = r.next` -> `next = r.prev`', 'movable mock with two or more expectations is moved; the ring of the new object is corrupt'),
 }
 rows = []
 for d in sorted(glob.glob(os.path.join(HERE, 'seeded', '*'))):
